@@ -32,11 +32,14 @@ def gen_case(rng):
                          width=rng.choice([2.0, 4.0]) * df, tprof=rng.choice(["const", "sine"]), period=rng.choice([7.0, 50.0]),
                          integrate_path=rng.random() < 0.25, integrate_t=rng.random() < 0.25, smear=rng.random() < 0.3),
              repeat=rng.choice([1, 1, 2, 5]), t_slew=rng.choice([0.0, 10.0, 123.5]))
+    c["t_overwrite"] = rng.random() < 0.35
     r = rng.random()
     if r < 0.25 and n >= 2:
         a = rng.randint(0, n - 1); b = rng.randint(a + 1, n)
-        c["slice"] = [a, b]
-    elif r < 0.4:
+        c["slice"] = [a, b] if rng.random() < 0.5 else [a, n, 2]
+    elif r < 0.35 and n >= 2:
+        c["index"] = sorted(rng.sample(range(n), rng.randint(1, n)))
+    elif r < 0.5:
         c["ordered"] = True; c["order"] = "ABACAD"; c["label"] = rng.choice(["A", "B"])
     return c
 
@@ -65,7 +68,8 @@ def run(ctx):
     for c, r, mv in zip(cases, impl, vals):
         ctx.count(c, nontrivial=len(c["frames"]) >= 2)
         ctx.tally("frames", len(c["frames"])); ctx.tally("times", "unix" if c["realistic"] else "integer"); ctx.tally("repeat", c["repeat"])
-        ctx.tally("subset", "slice" if c.get("slice") else ("label" if c.get("label") else "all"))
+        ctx.tally("subset", "slice" if c.get("slice") else ("index" if c.get("index") else ("label" if c.get("label") else "all")))
+        ctx.tally("t_overwrite", bool(c.get("t_overwrite")))
         for key, msg in r["fails"]:
             ctx.impl_violation(key, msg, c)
         if mv is not None:
